@@ -790,6 +790,50 @@ func runC05(cfg *vh.Config) error {
 		}
 	}
 
+	// ONE file referring to the SAME foreign type from scopes that differ in whether the first segment of the foreign
+	// package is shadowed by a nested message / enum of an enclosing message (there the printer must write
+	// `.bar.v1.Thing`), in both orders: unshadowed first (hold/v1/a.proto) and shadowed first (hold/v1/b.proto), and a
+	// deeper nesting where only the outer message declares the capturing name (seeded C05-J: a per-file memo of the
+	// cross-package name that ignores the scope)
+	{
+		set := map[string]string{
+			"bar/v1/thing.proto": "syntax = \"proto3\";\npackage bar.v1;\nmessage Thing { string x = 1; }\nenum Shade { SHADE_UNSPECIFIED = 0; }\n",
+			"hold/v1/a.proto": "syntax = \"proto3\";\npackage hold.v1;\nimport \"bar/v1/thing.proto\";\n" +
+				"message Plain { bar.v1.Thing t = 1; bar.v1.Shade s = 2; }\n" +
+				"message Holder {\n  message bar { string n = 1; }\n  .bar.v1.Thing t = 1;\n  bar inner = 2;\n  .bar.v1.Shade s = 3;\n}\n" +
+				"message HolderE {\n  enum bar { bar_UNSPECIFIED = 0; }\n  .bar.v1.Thing t = 1;\n  message Deep { .bar.v1.Thing t = 1; }\n}\n" +
+				"message After { bar.v1.Thing t = 1; }\n",
+			"hold/v1/b.proto": "syntax = \"proto3\";\npackage hold.v1;\nimport \"bar/v1/thing.proto\";\n" +
+				"message Holder2 {\n  message bar { string n = 1; }\n  .bar.v1.Thing t = 1;\n  repeated .bar.v1.Thing many = 2;\n  map<string, .bar.v1.Thing> by_name = 3;\n}\n" +
+				"message Plain2 { bar.v1.Thing t = 1; repeated bar.v1.Thing many = 2; }\n" +
+				"service Svc { rpc Get(bar.v1.Thing) returns (bar.v1.Thing) {} }\n",
+		}
+		names := []string{"hold/v1/a.proto", "hold/v1/b.proto"}
+		parsed, err := tool.ParseProto(ctx, set, names)
+		if err != nil {
+			res.Notes = append(res.Notes, "hand-built shadowed / unshadowed reference file does not parse: "+trim(err.Error(), 160))
+		}
+		for _, name := range names {
+			for _, fd := range parsed {
+				if fd.Path() != name {
+					continue
+				}
+				caseNo++
+				res.Count("hand-built")
+				distinct.Add("hand-shadow:" + name)
+				input := map[string]any{"file": name, "source": set[name], "imported": set["bar/v1/thing.proto"]}
+				rt, fails := roundTripOut(ctx, fd, set)
+				addFile("hand-built", fd, rt, fails, name, input, set)
+				if len(fails) == 0 {
+					res.Count("hand-built:round trip ok")
+				} else {
+					res.Count("hand-built:round trip fails")
+				}
+				report("hand-built", "C05 one file referring to a foreign type from a shadowed and an unshadowed scope", input, fails)
+			}
+		}
+	}
+
 	// the same constellation in the other order (capturing file first), with other names so that a state kept per
 	// (package, name) by the printer is fresh: r.proto must print .shared.v1.Coin, q.proto shared.v1.Coin (the model says
 	// so; a state leaking from r to q shows as a tie mismatch on q's tokens)
